@@ -1511,7 +1511,10 @@ def oracle_promo(h):
             if states[host]["server_clients"] != len(states) - 1:
                 fails.append(("C07", "the new host serves %d clients, the session has %d other peers" % (states[host]["server_clients"], len(states) - 1), {}))
             for p, s in states.items():
-                left = [t for t in s["tracker"]["tokens"]] + [[t, "asset"] for t in s["tracker"]["htokens"]]
+                # (an entry left behind for an entity that has been despawned since cannot swallow anything: no change of that key
+                # can happen any more)
+                alive = set(x["uuid"] for x in s["ents"])
+                left = [t for t in s["tracker"]["tokens"] if t[0] in alive] + [[t, "asset"] for t in s["tracker"]["htokens"]]
                 if left:
                     fails.append(("C07", "peer %d is drained but still holds a debounce entry: its next own change of that key would be taken for an echo and never sent" % p,
                                   {"uuid": left[0][0][:8], "key": left[0][1].split("::")[-1], "count": len(left)}))
